@@ -242,7 +242,9 @@ func candidates(cat *ga.Catalogue) *typeSet {
 	ts.noncomparable = []*ga.Type{Sl(B("int")), Sl(B("string")), Sl(B("float64")), Sl(B("uint8")), M(B("string"), B("int")),
 		M(B("float64"), B("string")), P(B("int")), P(cat.S0), cat.SP, cat.Rec, cat.MA, cat.NSl, cat.NMap, cat.NPtr, cat.E1,
 		Ar(2, Sl(B("int"))), Sl(P(B("int"))), P(P(B("int"))), M(B("int"), Sl(B("string"))), Sl(cat.S0), P(Sl(B("float64"))),
-		St(Sl(B("int")), B("int")), Sl(Sl(B("int"))), M(cat.NArr, P(B("float64")))}
+		St(Sl(B("int")), B("int")), Sl(Sl(B("int"))), M(cat.NArr, P(B("float64"))),
+		// arrays and structs whose comparability is decided by their components
+		Ar(2, P(B("int"))), Ar(2, P(cat.S0)), St(Ar(2, P(B("int"))), B("string")), Ar(1, M(B("string"), B("int"))), St(B("int"), P(B("string")))}
 	ts.results = []*ga.Type{B("int"), B("string"), B("float64"), B("bool"), Sl(B("int")), P(B("int")), cat.S0, M(B("string"), B("int")), cat.NInt, Ar(2, B("string"))}
 	for _, l := range [][]*ga.Type{ts.comparable, ts.noncomparable, ts.results} {
 		for _, t := range l {
